@@ -324,7 +324,7 @@ pub fn run(ctx: &mut RunCtx) {
     p.ops = 0..6;
     p.ws = 1..5;
     p.nested_values = false;
-    let n = ctx.tier.pick(128, 12_000);
+    let n = ctx.tier.pick(400, 12_000);
     ctx.shrink_iters = 40;
     ctx.explore(
         "second-open",
